@@ -5,6 +5,7 @@ import (
 	"net/http"
 	"net/http/httptest"
 	"os"
+	"runtime"
 	"strconv"
 	"sync"
 	"sync/atomic"
@@ -53,6 +54,28 @@ func stressMain(args []string) {
 				probes = append(probes, probe{"GET", fmt.Sprintf("/d%d/%d", k, id), fmt.Sprintf("200:dyn%d:%d", k, id)})
 			}
 		}
+		// a handler that keeps a Copy of its context for work that outlives the request (the documented use of Copy)
+		var bg sync.WaitGroup
+		r.GET("/copy/{id}", func(c *rux.Context) {
+			cp := c.Copy()
+			want := c.Param("id")
+			bg.Add(1)
+			go func() {
+				defer bg.Done()
+				runtime.Gosched()
+				_ = cp.Handler()
+				_, _ = cp.Get("g0")
+				if cp.Param("id") != want {
+					if atomic.AddInt64(&wrong, 1) == 1 {
+						firstWrong.Store(fmt.Sprintf("shape=%d copied context of /copy/%s reports id=%q", shape, want, cp.Param("id")))
+					}
+				}
+			}()
+			c.Text(200, "copy:"+want)
+		})
+		for id := 0; id < 3; id++ {
+			probes = append(probes, probe{"GET", fmt.Sprintf("/copy/%d", id), fmt.Sprintf("200:copy:%d", id)})
+		}
 		r.Group("/g", func() {
 			r.GET("/in/{x}", func(c *rux.Context) { c.Text(200, "group:"+c.Param("x")) })
 		}, func(c *rux.Context) { c.Next() })
@@ -84,6 +107,7 @@ func stressMain(args []string) {
 			}()
 		}
 		wg.Wait()
+		bg.Wait()
 	}
 	fw, _ := firstWrong.Load().(string)
 	fmt.Printf("stress total=%d wrong=%d first=%s\n", total, wrong, fw)
